@@ -27,8 +27,9 @@ const (
 
 // Beh is what a Before/Action/After does
 type Beh struct {
-	Kind int
-	Code int // exit status for BehExit
+	Kind    int
+	Code    int // exit status for BehExit
+	PanKind int // what BehPanic raises: 0 *PanicValue, 1 an error value, 2 a runtime error (nil map write), 3 a string
 }
 
 // Cmd is a command of the tree
@@ -67,6 +68,19 @@ func Single(p *Prog) *App {
 	return &App{Root: &Cmd{Aliases: []string{"app"}, Prog: p, Action: Beh{Kind: BehReturn}}, Policy: flag.ContinueOnError}
 }
 
+// RuntimeErrorMarker stands in PanVals for a panic raised by the Go runtime (the value itself is created by the runtime)
+const RuntimeErrorMarker = "<runtime error: assignment to entry in nil map>"
+
+// SamePanic tells whether the value Run re-raised is the one a hook raised (identity for pointers and errors)
+func SamePanic(got, raised interface{}) bool {
+	if raised == RuntimeErrorMarker {
+		re, ok := got.(runtime.Error)
+		return ok && strings.Contains(re.Error(), "assignment to entry in nil map")
+	}
+	defer func() { recover() }()
+	return got == raised
+}
+
 // PanicValue is what a hook with BehPanic raises; identity is checked by C05
 type PanicValue struct{ Hook string }
 
@@ -102,7 +116,7 @@ type Obs struct {
 	Bind  map[int]Binding
 	SetBy map[int]map[string]bool
 	// PanVals: the values raised by BehPanic hooks, by hook name (B0, ACT1, A2)
-	PanVals map[string]*PanicValue
+	PanVals map[string]interface{}
 	Ran     int
 	// Final: the recorders' content when Run ended (also on rejection / exit), per node id; recording mode only
 	Final map[int]Binding
@@ -254,6 +268,19 @@ func buildApp(a *App, o *Obs, setEnv *[]string) (*cli.Cli, map[int]*recs) {
 				}
 				switch b.Kind {
 				case BehPanic:
+					switch b.PanKind {
+					case 1:
+						e := fmt.Errorf("error raised by %s", name)
+						o.PanVals[name] = e
+						panic(e)
+					case 2:
+						o.PanVals[name] = RuntimeErrorMarker
+						var m map[string]int
+						m[name] = 1 // runtime error: assignment to entry in nil map
+					case 3:
+						o.PanVals[name] = "string raised by " + name
+						panic("string raised by " + name)
+					}
 					pv := &PanicValue{Hook: name}
 					o.PanVals[name] = pv
 					panic(pv)
@@ -276,7 +303,7 @@ func buildApp(a *App, o *Obs, setEnv *[]string) (*cli.Cli, map[int]*recs) {
 
 // Run builds and runs the application on a fresh goroutine
 func Run(a *App, argv []string) *Obs {
-	o := &Obs{Bind: map[int]Binding{}, SetBy: map[int]map[string]bool{}, PanVals: map[string]*PanicValue{}}
+	o := &Obs{Bind: map[int]Binding{}, SetBy: map[int]map[string]bool{}, PanVals: map[string]interface{}{}}
 	var buf bytes.Buffer
 	done := make(chan struct{})
 	var setEnv []string
@@ -532,7 +559,7 @@ type Built struct {
 // Build declares the application now; Run runs it later. Used to interleave the construction and the execution of
 // several applications (C20).
 func Build(a *App) *Built {
-	b := &Built{a: a, o: &Obs{Bind: map[int]Binding{}, SetBy: map[int]map[string]bool{}, PanVals: map[string]*PanicValue{}}}
+	b := &Built{a: a, o: &Obs{Bind: map[int]Binding{}, SetBy: map[int]map[string]bool{}, PanVals: map[string]interface{}{}}}
 	func() {
 		defer func() { b.BuildPan = recover() }()
 		var setEnv []string
@@ -550,7 +577,7 @@ func Build(a *App) *Built {
 // the application object and its variables are the library's)
 func (b *Built) Run(argv []string) *Obs {
 	o := b.o
-	*o = Obs{Bind: map[int]Binding{}, SetBy: map[int]map[string]bool{}, PanVals: map[string]*PanicValue{}}
+	*o = Obs{Bind: map[int]Binding{}, SetBy: map[int]map[string]bool{}, PanVals: map[string]interface{}{}}
 	for _, rs := range b.all { // the recorders only log what this Run binds
 		for _, rc := range rs.o {
 			rc.Vals, rc.Clears = nil, 0
@@ -564,8 +591,20 @@ func (b *Built) Run(argv []string) *Obs {
 		return o
 	}
 	done := make(chan struct{})
+	var buf bytes.Buffer
 	go func() {
 		defer close(done)
+		if !b.a.Shared {
+			cli.VerifSetStdErr(&buf)
+			cli.VerifSetStdOut(&buf)
+			cli.VerifSetExiter(func(c int) {
+				cc := c
+				o.Exit = &cc
+				o.Exits++
+				o.Events = append(o.Events, fmt.Sprintf("EXIT%d", c))
+				runtime.Goexit()
+			})
+		}
 		defer func() {
 			if v := recover(); v != nil {
 				if pos, in, ok := cli.VerifParseErrorPos(v); ok {
@@ -580,6 +619,7 @@ func (b *Built) Run(argv []string) *Obs {
 		o.Events = append(o.Events, "RET")
 	}()
 	<-done
+	o.Stderr = buf.String()
 	cp := *o
 	return &cp
 }
